@@ -509,7 +509,7 @@ def lagrange(pairs):
   A function that returns the interpolator result for a given ``x``.
 
   """
-  prod = lambda args: reduce(operator.mul, args)
+  prod = lambda args: reduce(operator.mul, args, 1) # Empty product is 1
   xv, yv = xzip(*pairs)
   return lambda k: sum( yv[j] * prod( (k - rk) / (rj - rk)
                                       for rk in xv if rj != rk )
@@ -532,7 +532,7 @@ def lagrange(pairs):
   A Poly instance that allows finding the interpolated value for any ``x``.
 
   """
-  return lagrange.func(pairs)(x)
+  return Poly(lagrange.func(pairs)(x)) # A single point yields a number
 
 
 @tostream
